@@ -16,7 +16,7 @@ fraction).
                          that `scipy.integrate.quad` returns the value of the integral is its contract, measured by
                          the correspondence check)
   * `pfNormLoadCode`   = `pf_norm_load(load_median, load_std, lower_limit, upper_limit)` AS THE CODE COMPUTES IT
-                         (repaired code, repo commits 2a91979 + 04bca38 + tools/fixes/C15-pf-norm-load-followup.diff):
+                         (repaired code, /repo commits 2a91979 + 04bca38 + 2da931b):
                          `load_std = 0` is a deterministic load (`pf_simple_load` if it lies within the limits, else 0);
                          otherwise the limits are standardised (`t = (log10 load − log10 load_median) / load_std`, default
                          ±16, explicit ones clipped to ±16), `loc = s_50 − log10 load_median`,
